@@ -720,11 +720,18 @@ fn run_case(
     findings
 }
 
+/// one finding per signature and case (the first, e.g. the first failing lookup)
+fn dedupe(findings: &mut Vec<Finding>) {
+    let mut seen = std::collections::HashSet::new();
+    findings.retain(|f| seen.insert(f.sig.clone()));
+}
+
 /// Run, and on findings run again (replay before report); record what failed identically twice.
 fn check_case(case: &Case, scratch: &Scratch, rep: &mut Report, found: &Findings) {
     let entries: Vec<Entry> = case.specs.iter().map(|s| s.entry()).collect();
     let mut stats = CaseStats::default();
-    let findings = run_case(case, &entries, scratch, &mut rep.outcomes, &mut stats);
+    let mut findings = run_case(case, &entries, scratch, &mut rep.outcomes, &mut stats);
+    dedupe(&mut findings);
     rep.evaluations += 1;
     rep.traces_validated += 1;
     rep.transitions += stats.builder_calls + stats.prog.calls + stats.loads;
@@ -748,7 +755,8 @@ fn check_case(case: &Case, scratch: &Scratch, rep: &mut Report, found: &Findings
     rep.count("cases_with_findings", 1);
     let mut again_stats = CaseStats::default();
     let mut scratch_outcomes = std::collections::HashSet::new();
-    let again = run_case(case, &entries, scratch, &mut scratch_outcomes, &mut again_stats);
+    let mut again = run_case(case, &entries, scratch, &mut scratch_outcomes, &mut again_stats);
+    dedupe(&mut again);
     let total: usize = entries.iter().map(|e| e.key.len() + e.value.as_ref().map(|v| v.len()).unwrap_or(0)).sum();
     let metric = (entries.len() as u64) * 1_000_000 + total as u64;
     for f in findings {
@@ -898,7 +906,7 @@ fn special_tables() -> Vec<(&'static str, Vec<Spec>, Vec<Vec<u8>>)> {
             mk_spec(b"\xff", 2, Big, 14),
             mk_spec(b"\xff", 1, Tomb, 15),
         ],
-        vec![b"a\x01".to_vec(), b"ba".to_vec(), b"c".to_vec()],
+        vec![b"a\x01".to_vec(), b"a\x01\x00".to_vec(), b"a\x02".to_vec(), b"ba".to_vec(), b"c".to_vec()],
     ));
     v
 }
@@ -1007,7 +1015,7 @@ fn main() {
     let thorough = args.tier_thorough();
     let seq_plan: Vec<(usize, usize)> = args
         .get("plan")
-        .unwrap_or(if thorough { "3:5,4:4,5:3" } else { "3:3" })
+        .unwrap_or(if thorough { "2:5,3:4,5:3" } else { "3:3" })
         .split(',')
         .map(|p| {
             let (a, b) = p.split_once(':').expect("plan wants n:L");
@@ -1093,7 +1101,8 @@ fn replay(rf: &Value) {
     );
     let mut outcomes = std::collections::HashSet::new();
     let mut stats = CaseStats::default();
-    let findings = run_case(&case, &entries, &scratch, &mut outcomes, &mut stats);
+    let mut findings = run_case(&case, &entries, &scratch, &mut outcomes, &mut stats);
+    dedupe(&mut findings);
     let mut hit = false;
     for f in findings.iter() {
         println!("finding {}\n    {}", f.sig, f.detail);
